@@ -40,6 +40,13 @@ CHECKS = [
   "text": _WORKER + " Parameter-level layer drives the real _prepare_retry/_prepare_reschedule through 2-10 iterations with generated "
           "latency/duration profiles; oracle = one successor, counter reset, TTL restarted, now<S_next<=now+p, S_next>=S_prev+p.",
   "note": _MODEL + _SRV + " cron schedules are not exercised (croniter not installed)."},
+ {"property_id": "C07", "level": "exploration", "design_ref": "DESIGN.md §4 C07",
+  "technique": "round-trip and injectivity property-based testing of codecs and key encodings, plus end-to-end producer->broker->consumer->actor identity checks on 3 brokers",
+  "text": "decode(encode(x))==x over generated field combinations at the documented limits (100-year durations at microsecond precision, "
+          "tz-aware timestamps); Redis/AMQP name encodings round-trip and are injective over near-miss key pairs; end to end the consumed "
+          "key/priority/payload/parameters equal what Job.enqueue() returned and the configured settings, and the actor's arguments equal an "
+          "independent JSON normalisation (inline and bucket transport).",
+  "note": _MODEL + _SRV},
  {"property_id": "C09", "level": "exploration", "design_ref": "DESIGN.md §4 C09",
   "technique": "scenario property-based testing with an in-body concurrency counter and a bounded-latency progress oracle, 3 brokers",
   "text": _WORKER + " Safety oracle: bodies in progress <= tasks_limit at every instant. Progress oracle: no free slot + deliverable message "
